@@ -33,7 +33,7 @@ NONE = ('none',)
 # types:  rec:Name  opaque:Name  opt[T]  nextfn[T]  + the types of py2lean
 def parse_type(s):
     s = s.strip()
-    if s in ('int', 'nat', 'bool', 'str', 'bytes', 'obj'):
+    if s in ('int', 'nat', 'bool', 'str', 'bytes', 'obj', 'pow10'):
         return (s,)
     if re.match(r'(rec|opaque):\w+$', s):
         return (s,)
@@ -95,6 +95,8 @@ class StateSpec(object):
         if k.startswith('rec:'):
             ps = self.ordered(self.params_of_type(t))
             return ' '.join([self.lean_names[k[4:]]] + ps), not ps
+        if k == 'pow10':
+            return 'Py.Pow10', True
         if k in ('opt', 'nextfn'):
             inner = P.lean_type(t[1], False)
             if k == 'nextfn':
@@ -114,6 +116,8 @@ def _default_ext(t):
     k = prune(t)[0]
     if k in ('opt', 'nextfn', 'none'):
         return 'none'
+    if k == 'pow10':
+        return '(Py.pow10 0)'
     return None
 
 
@@ -212,6 +216,16 @@ class ProcCompiler(P.FuncCompiler):
         return self.lift([v], lambda c: '%s.%s' % (c[0], lean_ident(e.attr)), attrs[e.attr])
 
     def e_BinOp(self, e):
+        if (isinstance(e.op, ast.Mult) and isinstance(e.left, ast.Constant) and isinstance(e.left.value, float)
+                and e.left.value == 1.0 and isinstance(e.right, ast.BinOp) and isinstance(e.right.op, ast.Pow)
+                and isinstance(e.right.left, ast.Constant) and e.right.left.value == 10
+                and not isinstance(e.right.left.value, (bool, float))):
+            # `1.0 * 10 ** e`: floats are not modelled; the value is the exact power of ten, held by its exponent
+            x = self.expr(e.right.right)
+            if self.kind(x, e) not in ('int', 'nat'):
+                self.bad(e, '`1.0 * 10 ** e` with a non-int exponent')
+            x = self.to_int(x)
+            return self.lift([x], lambda c: '(Py.pow10 %s)' % c[0], ('pow10',))
         if isinstance(e.op, ast.Pow):
             a, b = self.expr(e.left), self.expr(e.right)
             if self.kind(a, e.left) in ('int', 'nat') and self.kind(b, e.right) == 'int':
@@ -355,6 +369,8 @@ class ProcCompiler(P.FuncCompiler):
         if isinstance(s, ast.Expr) and isinstance(s.value, ast.Call) and isinstance(s.value.func, ast.Attribute):
             c = s.value
             f = c.func
+            if self.is_log_call(c):
+                return 'v', False      # logging: no effect on the translated state (arguments are not evaluated)
             # obj.attr.append(x) / obj.attr.pop()
             tgt = self.obj_attr_target(f.value)
             if tgt and prune(tgt[2])[0] == 'list' and not c.keywords:
@@ -376,6 +392,19 @@ class ProcCompiler(P.FuncCompiler):
                     return self.call_callback(f.attr, c, s)
                 self.bad(s, 'call of self.%s, which is neither translated nor declared as a callback' % f.attr)
         return P.FuncCompiler.stmt(self, s)
+
+    def is_log_call(self, c):
+        """`log.debug(...)` / `log.info(...)` … where `log = logging.getLogger(...)` at module level"""
+        f = c.func
+        if not (isinstance(f.value, ast.Name) and f.value.id == 'log' and 'log' not in self.names
+                and f.attr in ('debug', 'info', 'warning', 'error')):
+            return False
+        nodes = self.mod.assigns.get('log', [])
+        if len(nodes) != 1 or not isinstance(nodes[0], ast.Assign):
+            return False
+        v = nodes[0].value
+        return (isinstance(v, ast.Call) and isinstance(v.func, ast.Attribute) and v.func.attr == 'getLogger'
+                and isinstance(v.func.value, ast.Name) and v.func.value.id == 'logging')
 
     def call_translated(self, obj, info, c, node):
         if c.keywords or any(isinstance(a, ast.Starred) for a in c.args) or len(c.args) != len(info['params']):
@@ -439,7 +468,20 @@ class ProcCompiler(P.FuncCompiler):
             for n in ast.walk(st):
                 if isinstance(n, ast.Return):
                     self.bad(n, '`return` that is not the last statement of the method')
-        head, hr = self.block(stmts) if stmts else ('v', False)
+        if self.ms.get('split') and stmts:
+            # every top-level statement becomes a definition of its own (`stmt_k : Locals → (Except Py.Exc) Locals`), the
+            # method is their composition: lemmas about the generated code can then be stated statement by statement
+            items = []
+            for st in stmts:
+                text, r = self.stmt(st)
+                if text == 'v' and not r:
+                    continue
+                name = 'stmt_%d' % (len(self.aux) + 1)
+                self.aux.append((name, text, r, st))
+                items.append(('(%s %sv)' % (name, 'self ' if self.recv == 'callbacks' else ''), r))
+            head, hr = self.seq(items)
+        else:
+            head, hr = self.block(stmts) if stmts else ('v', False)
         res = self.result_code()
         if ret is not None:
             r = self.to_int(self.expr(ret.value))
@@ -540,6 +582,17 @@ class ProcCompiler(P.FuncCompiler):
             all_tp = cparams
         else:
             all_tp = tp
+        for name, atext, ar, st in self.aux:
+            a, b, _ = self.mod.src(st)
+            asig = ''
+            if all_tp:
+                asig += ' {%s : Type}' % ' '.join(all_tp)
+            if cb_ty:
+                asig += ' (self : %s)' % cb_ty
+            asig += ' (v : %s)' % self.locals_ty
+            out.append('/-- %s:%s  statement of `%s` -/' % (self.mod.relpath, a if a == b else '%d-%d' % (a, b), self.node.name))
+            out.append('def %s%s : %s :=\n  %s' % (name, asig, 'Except Py.Exc (%s)' % self.locals_ty if ar else self.locals_ty, indent_rest(atext, 2)))
+            out.append('')
         out.append('end %s' % ns)
         out.append('')
         out.append('open %s in' % ns)
@@ -581,8 +634,8 @@ def render_state(gen, sspec):
     mod = gen.mod
     st = StateSpec(sspec)
     _CURRENT['st'] = st
-    P.TYPE_EXT['rec'] = P.TYPE_EXT['opaque'] = P.TYPE_EXT['opt'] = P.TYPE_EXT['nextfn'] = _type_ext
-    P.DEFAULT_EXT['opt'] = P.DEFAULT_EXT['nextfn'] = _default_ext
+    P.TYPE_EXT['rec'] = P.TYPE_EXT['opaque'] = P.TYPE_EXT['opt'] = P.TYPE_EXT['nextfn'] = P.TYPE_EXT['pow10'] = _type_ext
+    P.DEFAULT_EXT['opt'] = P.DEFAULT_EXT['nextfn'] = P.DEFAULT_EXT['pow10'] = _default_ext
     texts = []
     st.namedtuples = set()
     for name, ftypes in sspec.get('namedtuples', {}).items():
@@ -662,6 +715,7 @@ _CODER_STATE_ATTRS = {
 }
 
 _OPD_ARGS = ['rec:CoderState', 'opaque:BitOperator', 'rec:OperatorDescriptor']
+_ELT_ARGS = ['rec:CoderState', 'opaque:BitOperator', 'rec:ElementDescriptor']
 
 STATE_SPECS = {
     'coder': {
@@ -673,6 +727,12 @@ STATE_SPECS = {
             # Gen/PyDescriptors.lean (theorems C01_src_operator_code / C01_src_operand_value); here they are fields
             'OperatorDescriptor': {'attrs': {'id': 'int', 'operator_code': 'int', 'operand_value': 'int'},
                                    'doc': 'operator_code / operand_value are the properties translated in Gen/PyDescriptors.lean'},
+            # an ElementDescriptor (or MarkerDescriptor) as `process_element_descriptor` sees it; `X` is the property
+            # translated in Gen/PyDescriptors.lean
+            'ElementDescriptor': {'attrs': {'id': 'int', 'X': 'int', 'unit': 'str', 'nbits': 'int', 'scale': 'int', 'refval': 'int'},
+                                  'doc': 'X is the property translated in Gen/PyDescriptors.lean'},
+            # any descriptor, as `process_bitmap_definition` sees it
+            'AnyDescriptor': {'attrs': {'id': 'int'}},
         },
         'methods': [
             ('CoderState', 'reset_template_state', {'self': 'rec:CoderState', 'mutates': ['self']}),
@@ -691,6 +751,22 @@ STATE_SPECS = {
                     'process_string': {'args': _OPD_ARGS + ['int'], 'mutates': [0, 1]},
                     'process_constant': {'args': _OPD_ARGS + ['int'], 'mutates': [0, 1]},
                     'process_marker_operator_descriptor': {'args': _OPD_ARGS, 'mutates': [0, 1]},
+                }}),
+            ('Coder', 'process_bitmap_definition', {
+                'self': 'callbacks',
+                'params': {'state': 'rec:CoderState', 'bit_operator': 'opaque:BitOperator', 'descriptor': 'rec:AnyDescriptor'},
+                'mutates': ['state'],
+                'callbacks': {'define_bitmap': {'args': ['rec:CoderState', 'bool'], 'mutates': [0]}}}),
+            ('Coder', 'process_element_descriptor', {
+                'self': 'callbacks', 'split': True,
+                'params': {'state': 'rec:CoderState', 'bit_operator': 'opaque:BitOperator', 'descriptor': 'rec:ElementDescriptor'},
+                'mutates': ['state', 'bit_operator'],
+                'callbacks': {
+                    'process_associated_field': {'args': _ELT_ARGS, 'mutates': [0, 1]},
+                    'process_string': {'args': _ELT_ARGS + ['int'], 'mutates': [0, 1]},
+                    'process_codeflag': {'args': _ELT_ARGS + ['int'], 'mutates': [0, 1]},
+                    'process_numeric': {'args': _ELT_ARGS + ['int', 'pow10', 'int'], 'mutates': [0, 1]},
+                    'process_numeric_of_new_refval': {'args': _ELT_ARGS + ['int', 'pow10', 'int'], 'mutates': [0, 1]},
                 }}),
         ],
     },
